@@ -24,7 +24,8 @@ def _subst(e, mapping):
             if isinstance(node, ast.expr) and norm(node) in mapping:
                 return ast.Name(id=mapping[norm(node)], ctx=ast.Load())
             return super().visit(node)
-    return T().visit(copy.deepcopy(e))
+    # clone through unparse/parse: a deepcopy would follow the .parent links and copy the whole module tree
+    return T().visit(ast.parse(ast.unparse(e), mode='eval').body)
 
 
 def _resolver(ctx, f):
